@@ -318,6 +318,18 @@ def runFv (m : Mode) (al : Al) (f : List String) : String :=
     "ok:" ++ ",".intercalate (keys.map fun k => al.letter k ++ "=" ++
       (match chainGet m maps k with | some v => showNum v | none => "")) ++
       s!" kind=Map len={keys.length}"
+  | ["chain", "mapu", a, c] =>
+    -- the entries at the even positions hold undefined values: listed and found (`u`)
+    let mk := fun (word : String) (base : Nat) =>
+      match mkMap m (((w word).toList.zipIdx).map fun (ch, i) =>
+        (al.get ch, if i % 2 == 0 then V.undef else V.num (.u64 (base + i)))) with
+      | .map ps => ps
+      | _ => []
+    let maps := [mk a 0, mk c 10]
+    let keys := chainKeys maps
+    "ok:" ++ ",".intercalate (keys.map fun k => al.letter k ++ "=" ++
+      (match chainGet m maps k with | some .undef => "u" | some v => showNum v | none => "")) ++
+      s!" kind=Map len={keys.length}"
   | ["chain", kind, a, c] => runChain m al kind [w a, w c]
   | ["chain3", a, c, d] => runChain m al "seq" [w a, w c, w d]
   | ["items", word] =>
